@@ -79,13 +79,29 @@ def _listing_key(item):
 Step = collections.namedtuple("Step", "backend hist_id index op pre outcome post")
 
 
+CURRENT_REPORT = None
+CONSTRUCT_FAILED = set()
+
+
 def run_histories(backend_cls, histories, hist_ids=None, execute=None):
     """execute: optional replacement of fsops.execute, called as execute(fs, op, hist_index, step_index)."""
     steps = []
     for hi, h in enumerate(histories):
         b = backend_cls()
         try:
-            fs = b.make()
+            try:
+                fs = b.make()
+            except Exception as e:  # noqa -- the library refused to build one of the harness' standard objects
+                if CURRENT_REPORT is not None and backend_cls.name not in CONSTRUCT_FAILED:
+                    CONSTRUCT_FAILED.add(backend_cls.name)
+                    import traceback
+                    CURRENT_REPORT.violation(dict(kind="backend-construction-failed", backend=backend_cls.name,
+                                                  exception="%s: %s" % (type(e).__name__, e),
+                                                  traceback=traceback.format_exc()[-1200:],
+                                                  what="building a filesystem object the check builds on every run raised"))
+                if backend_cls.name in CONSTRUCT_FAILED:
+                    break
+                raise
             pre = b.snapshot()
             tick = getattr(b, "tick", None)
             for k, o in enumerate(h):
@@ -2817,4 +2833,7 @@ def run_c11(report):
 
 
 def run(report):   # noqa: F811
+    global CURRENT_REPORT
+    CURRENT_REPORT = report
+    CONSTRUCT_FAILED.clear()
     return {"C01": run_c01, "C05": run_c05, "C06": run_c06, "C10": run_c10, "C11": run_c11}[report.pid](report)
